@@ -35,6 +35,23 @@ int main(int argc, char **argv) {
     auto r = t->connectSync("peer", 1, TlsMode::None, std::chrono::milliseconds(5000)); io.join();
     if (r.isOk() || !log.empty()) replay_io::fail("S1 a session connectSync never handed out must produce no global callback and no observer call");
     replay_io::ok("suppressed");
+  } else if (scen == 7) {
+    // clause O1/O3 with a re-entrant global callback: it unobserves B and registers D on the closing session
+    ObserverId bId = 0; bool unobsB = false;
+    auto eng2 = std::make_unique<ScriptedEngine>(); ScriptedEngine *e2 = eng2.get();
+    auto t2 = Transport::withEngine(std::move(eng2), TransportConfig{});
+    std::vector<std::string> lg;
+    t2->observe(sid, [&](SessionId, const TransportErrorInfo &) { lg.push_back("A"); });
+    bId = t2->observe(sid, [&](SessionId, const TransportErrorInfo &) { lg.push_back("B"); });
+    t2->observe(sid, [&](SessionId, const TransportErrorInfo &) { lg.push_back("C"); });
+    t2->onClose([&](SessionId s, const TransportErrorInfo &) { lg.push_back("global"); unobsB = t2->unobserve(bId); t2->observe(s, [&](SessionId, const TransportErrorInfo &) { lg.push_back("D"); }); });
+    e2->cbs.onClose(sid, TransportErrorInfo{TransportError::PeerClosed, "peer closed"});
+    std::string got; for (auto &l : lg) got += l + " "; size_t left; { std::lock_guard<std::mutex> lk(t2->_impl->observerMutex); left = t2->_impl->observers.count(sid) + t2->_impl->observerToSession.size(); }
+    printf("observers A,B,C; global callback unobserves B (-> %s) and registers D; onClose -> %s; entries left in the maps: %zu\n", unobsB ? "true" : "false", got.c_str(), left);
+    std::vector<std::string> want = {"global", "A", "C", "D"};
+    if (lg != want || !unobsB) replay_io::fail("O1 (C02): exactly the observers STILL REGISTERED when the global callback has returned must run (A, C, D - not B), in registration order");
+    if (left != 0) replay_io::fail("O3 (C02): after the fan-out no observer of the closing session may remain in the maps");
+    replay_io::ok("still-registered observers ran; maps clean");
   } else if (scen == 6) {
     // clauses GCW / GC2 (C03): session 7 is closed with bytes AB still unread; the close of ANOTHER session runs the stale-tombstone GC; a late receiveSync(7) must still
     // get AB and then PeerClosed
